@@ -27,6 +27,9 @@ var c09Atoms = append(append([]ora.Atom{}, ora.StdAtoms...),
 	ora.Atom{Name: "FALLBt", Gen: func(t *ora.Tok) string {
 		return "<p>" + t.W(12) + " <span class=\"mwe-math-fallback-image-inline\" aria-hidden=\"true\">" + t.W(3) + "</span> " + t.W(8) + "</p>"
 	}},
+	ora.Atom{Name: "FIGhi", Gen: func(t *ora.Tok) string {
+		return "<figure><img src=\"http://example.com/img/" + t.U() + ".jpg\" width=\"400\" height=\"300\"><figcaption>" + t.W(3) + " <a href=\"http://example.com/l/" + t.U() + "\">" + t.W(2) + "</a> <img hidden src=\"http://example.com/count/" + t.U() + ".gif\"> <img src=\"http://example.com/img/" + t.U() + "-credit.png\"></figcaption></figure>"
+	}},
 	ora.Atom{Name: "LAZYs", Gen: func(t *ora.Tok) string {
 		return "<img src=\"http://example.com/img/placeholder.gif\" srcset=\"http://example.com/img/placeholder.gif 1x\" data-src=\"http://example.com/img/" + t.U() + ".jpg\" data-srcset=\"http://example.com/img/" + t.U() + "-2x.jpg 2x\" class=\"lazy\" width=\"400\" height=\"300\">"
 	}},
@@ -44,7 +47,7 @@ var c09Atoms = append(append([]ora.Atom{}, ora.StdAtoms...),
 	}},
 )
 
-var c09Alphabet = []string{"Pc", "Ps", "Pb", "H", "UL3", "ULn", "BQ", "PRE", "TBLd", "TBLl", "TBLi", "IMG", "IMGss", "IMGcdn", "IMGrel", "LAZY", "LAZYs", "PICf", "FALLBt", "PIC", "FIG", "FIGl", "FIGe",
+var c09Alphabet = []string{"Pc", "Ps", "Pb", "H", "UL3", "ULn", "BQ", "PRE", "TBLd", "TBLl", "TBLi", "IMG", "IMGss", "IMGcdn", "IMGrel", "LAZY", "LAZYs", "PICf", "FALLBt", "FIGhi", "PIC", "FIG", "FIGl", "FIGe",
 	"INL", "JS1", "BR", "HIDs", "NOS", "PUN", "VID", "YT", "TW", "TXT", "TBLh", "SIDE"}
 
 // text-only alphabet for the word-count clause
@@ -145,7 +148,7 @@ func init() {
 	eng.Register(&eng.Prop{
 		ID:        "C09",
 		DesignRef: "§5 C09",
-		Rule: "docspace BFS from S1,S2 with <= 2 (quick) / <= 3 (thorough) insertions over 35 atoms covering every element kind (images with src+srcset, relative URLs, lazy images, picture, tables with images, figures, embeds, punctuation), with and without page URL; " +
+		Rule: "docspace BFS from S1,S2 with <= 2 (quick) / <= 3 (thorough) insertions over 36 atoms covering every element kind (images with src+srcset, relative URLs, lazy images, picture, tables with images, figures, embeds, punctuation), with and without page URL; " +
 			"plus the title-less text-only sub-space (18 atoms, including a sidebar-classed link cluster so that the two extraction passes differ) for the WordCount clause. Oracle: words(Text) == words(visible text of result.Node) outside embed placeholders; ContentImages is an in-order subsequence of the HTML's img/source src+srcset candidates; WordCount == |words(Text)| in the text-only sub-space when Title is empty. " +
 			"Non-trivial = some text dropped, >= 20 words kept and (images listed or word-count clause applies).",
 		Enumerate: c09Enumerate,
